@@ -1,4 +1,5 @@
 import SnowModel.Drv.Util
+import SnowModel.Drv.C20
 import SnowModel.Drv.C05
 import SnowModel.Drv.C19
 import SnowModel.Drv.C14
@@ -35,6 +36,7 @@ def dispatch (j : Json) : Except String Json := do
   else if m.startsWith "c14." then SnowModel.Drv.C14.handle m j
   else if m.startsWith "c19." then SnowModel.Drv.C19.handle m j
   else if m.startsWith "c05." then SnowModel.Drv.C05.handle m j
+  else if m.startsWith "c20." then SnowModel.Drv.C20.handle m j
   else throw s!"unknown method {m}"
 
 partial def loop (hin hout : IO.FS.Stream) : IO Unit := do
